@@ -61,10 +61,16 @@ func randEp(rng *rand.Rand, used map[string]bool, name string) epConf {
 			if rng.Intn(2) == 0 {
 				c.Path += "/" + seg()
 			}
+			if rng.Intn(4) == 0 {
+				c.Path += "/" // a trailing slash is part of the route
+			}
 		case "path_noslash":
 			c.Path = seg()
 			if rng.Intn(2) == 0 {
 				c.Path += "/" + seg()
+			}
+			if rng.Intn(4) == 0 {
+				c.Path += "/"
 			}
 		case "url":
 			c.Path = "/" + seg()
